@@ -57,56 +57,108 @@ def run(chk, prog):
     for p in fn["params"]:
         if p["t"].replace("const ", "").strip() == "double":
             env.vals[("l", p["id"])] = sp.Symbol(p["n"], positive=True)
-    sets = []
-    for s in fn["body"]["s"]:
-        if s.get("k") == "Decl":
-            for d in s["d"]:
-                if d.get("init") is None:
-                    continue
-                ie = C.strip_casts(d["init"])
-                if ie.get("k") == "InitList":
-                    for i, a in enumerate(ie["a"]):
-                        env.vals[("i", ("l", d["id"]), i)] = conv.conv(a, env)
+    def execute(stmts, env, sets, conds):
+        """Leaves of the (loop-free) statement list: [(sets, conds)]; every `if` forks, conditions stay opaque."""
+        leaves = [(env, sets, conds)]
+        for s in stmts:
+            nxt = []
+            for env1, sets1, conds1 in leaves:
+                k = s.get("k")
+                if k == "Decl":
+                    for d in s["d"]:
+                        if d.get("init") is None:
+                            continue
+                        ie = C.strip_casts(d["init"])
+                        if ie.get("k") == "InitList":
+                            for i, a in enumerate(ie["a"]):
+                                env1.vals[("i", ("l", d["id"]), i)] = conv.conv(a, env1)
+                        else:
+                            env1.vals[("l", d["id"])] = conv.conv(d["init"], env1)
+                    nxt.append((env1, sets1, conds1))
+                elif k == "Block" and not s.get("mac"):
+                    nxt += execute(s["s"], env1, sets1, conds1)
+                elif k == "If":
+                    ct = C.pretty(s["c"])
+                    e_t, e_f = env1.copy(), env1.copy()
+                    nxt += execute([s["th"]], e_t, list(sets1), conds1 + [(ct, True, s.get("l"))])
+                    if s.get("el") is not None:
+                        nxt += execute([s["el"]], e_f, list(sets1), conds1 + [(ct, False, s.get("l"))])
+                    else:
+                        nxt.append((e_f, list(sets1), conds1 + [(ct, False, s.get("l"))]))
+                elif k in ("Null",) or (k == "Block" and s.get("mac")):
+                    nxt.append((env1, sets1, conds1))
                 else:
-                    env.vals[("l", d["id"])] = conv.conv(d["init"], env)
-        else:
-            e = C.strip_casts(s)
-            if C.is_call(e, name="set_ionic_fraction"):
-                ion = C.strip_casts(e["a"][0])
-                sets.append((ion.get("n"), conv.conv(e["a"][1], env), e))
-            elif s.get("k") not in ("Null",):
-                raise AnalysisBroken("compute_ionization_states_metals: statement at line %s is not part of a "
-                                     "closed formula" % s.get("l"))
-    if len(sets) < 8:
+                    e = C.strip_casts(s)
+                    if C.is_call(e, name="set_ionic_fraction"):
+                        ion = C.strip_casts(e["a"][0])
+                        sets1 = sets1 + [(ion.get("n"), conv.conv(e["a"][1], env1), e)]
+                        nxt.append((env1, sets1, conds1))
+                    elif e.get("k") == "Bin" and e["op"] == "=" and conv.key(e["a"]) is not None:
+                        env1.vals[conv.key(e["a"])] = conv.conv(e["b"], env1)
+                        nxt.append((env1, sets1, conds1))
+                    else:
+                        raise AnalysisBroken("compute_ionization_states_metals: statement at line %s is not part of a "
+                                             "closed formula" % s.get("l"))
+            leaves = nxt
+            if len(leaves) > 512:
+                raise AnalysisBroken("compute_ionization_states_metals: more than 512 paths")
+        return leaves
+
+    leaves = execute(fn["body"]["s"], env, [], [])
+    tracked = {}
+    for _, sets, _ in leaves:
+        for name, expr, node in sets:
+            m = re.match(r"ION_([A-Za-z]+)_", name or "")
+            if not m:
+                raise AnalysisBroken("cannot read the element of ion %s" % name)
+            tracked.setdefault(m.group(1), set()).add(name)
+    if sum(len(v) for v in tracked.values()) < 8:
         raise AnalysisBroken("fewer than 8 metal fractions are set")
-    groups = {}
-    for name, expr, node in sets:
-        m = re.match(r"ION_([A-Za-z]+)_", name or "")
-        if not m:
-            raise AnalysisBroken("cannot read the element of ion %s" % name)
-        groups.setdefault(m.group(1), []).append((name, expr, node))
     n = 0
-    for el, lst in sorted(groups.items()):
-        total = sp.Integer(0)
-        for name, expr, node in lst:
-            num, den = sp.fraction(sp.together(expr))
-            gens = sorted(expr.free_symbols, key=str)
+    seen_cert = set()
+    for _, sets, conds in leaves:
+        path = ", ".join("%s%s (line %s)" % ("" if pol else "not ", c, l) for c, pol, l in conds) or "the only path"
+        groups = {}
+        for name, expr, node in sets:
+            groups.setdefault(re.match(r"ION_([A-Za-z]+)_", name).group(1), []).append((name, expr, node))
+        for el in sorted(tracked):
+            lst = groups.get(el, [])
+            last = {}
+            for name, expr, node in lst:
+                last[name] = (expr, node)
+            missing = tracked[el] - set(last)
+            key = (el, tuple(sorted((nm, sp.srepr(ex)) for nm, (ex, _) in last.items())), tuple(sorted(missing)))
+            if key in seen_cert:
+                continue
+            seen_cert.add(key)
             n += 1
-            chk.require(nonneg_poly(num, gens) and nonneg_poly(den, gens) and den != 0, "P1",
-                        "fraction of %s is a ratio of polynomials with non-negative coefficients" % name,
-                        where(node, fn), "numerator %s / denominator %s has a negative coefficient: the fraction can "
-                        "become negative for admissible (non-negative) inputs" % (sp.expand(num), sp.expand(den)),
-                        function=fn["full"], construct="fraction %s" % name)
-            total += expr
-        num, den = sp.fraction(sp.together(1 - total))
-        gens = sorted(total.free_symbols, key=str)
-        n += 1
-        chk.require(nonneg_poly(num, gens) and nonneg_poly(den, gens), "P1",
-                    "tracked stages of %s sum to at most 1" % el, where(lst[0][2], fn),
-                    "1 - sum of the %s fractions = (%s)/(%s) has a negative coefficient: the stages can sum to more "
-                    "than 1 (a term is missing from the normalisation)" % (el, sp.expand(num), sp.expand(den)),
-                    function=fn["full"], construct="normalisation %s" % el)
-    chk.floor("P1", n, 15)
+            chk.require(not missing, "P1", "every tracked stage of %s is written on the path [%s]" % (el, path),
+                        where(fn), "stages %s are not written on this path: they keep the value of the previous solve, so the "
+                        "stages of %s can sum to more than 1" % (sorted(missing), el), function=fn["full"],
+                        construct="stages written %s" % el)
+            total = sp.Integer(0)
+            for name, (expr, node) in sorted(last.items()):
+                num, den = sp.fraction(sp.together(expr))
+                gens = sorted(expr.free_symbols, key=str)
+                n += 1
+                chk.require(nonneg_poly(num, gens) and nonneg_poly(den, gens) and den != 0, "P1",
+                            "fraction of %s is a ratio of polynomials with non-negative coefficients" % name,
+                            where(node, fn), "numerator %s / denominator %s has a negative coefficient: the fraction can "
+                            "become negative for admissible (non-negative) inputs" % (sp.expand(num), sp.expand(den)),
+                            function=fn["full"], construct="fraction %s" % name)
+                total += expr
+            if not last:
+                continue
+            num, den = sp.fraction(sp.together(1 - total))
+            gens = sorted(total.free_symbols, key=str)
+            n += 1
+            chk.require(nonneg_poly(num, gens) and nonneg_poly(den, gens), "P1",
+                        "tracked stages of %s sum to at most 1" % el, where(sorted(last.items())[0][1][1], fn),
+                        "1 - sum of the %s fractions = (%s)/(%s) has a negative coefficient: the stages can sum to more "
+                        "than 1 (a term is missing from the normalisation)" % (el, sp.expand(num), sp.expand(den)),
+                        function=fn["full"], construct="normalisation %s" % el)
+    sets = [(nm, None, None) for el in tracked for nm in tracked[el]]
+    chk.floor("P1", n, 20)
     # ---- P2 / P3 on the thermal balance ---------------------------------------------------------
     tu = prog.unit("TemperatureCalculator.cpp")
     chk.analysed(unit=tu.name)
